@@ -50,6 +50,8 @@ def check(ck):
     r10_5(ck)
     r10_6(ck)
     r10_8(ck)
+    r10_9(ck)
+    r10_10(ck)
 
 
 def _ret_tuples(fi):
@@ -693,3 +695,112 @@ def r10_8(ck):
                            '%s reports new processes under %s but '
                            'generates them at %s' % (
                                q, show(rv or []), show(want)), d.stmt)
+
+
+def r10_9(ck):
+    ck.rule('R10.9', 'write-back into the Composite: in the composite '
+            "branch of Engine._make_store each published part is either "
+            "the composite's own dictionary (a plain alias, updated in "
+            'place later) or is explicitly written back into the composite')
+    ms = ck.fn('Engine._make_store', 'core.engine')
+    cfg = cfg_of(ms.node)
+    n = 0
+    for part in ('processes', 'steps', 'flow', 'topology'):
+        assigns = [s for s in A.walk_no_nested(ms.node)
+                   if isinstance(s, ast.Assign) and A.unparse(
+                       s.targets[0]) == 'self.' + part and 'composite[' in
+                   A.unparse(s.value)]
+        for s in assigns:
+            n += 1
+            alias = A.unparse(s.value) == "composite['%s']" % part
+            back = [b for b in A.walk_no_nested(ms.node)
+                    if isinstance(b, ast.Assign) and A.unparse(
+                        b.targets[0]) == "composite['%s']" % part and
+                    A.unparse(b.value) == 'self.' + part]
+            ok = alias or (bool(back) and cfg.reach_without(
+                cfg.node(s), cfg.node(back[0]), set()))
+            ck.require(ok, 'R10.9', ms, s,
+                       "self.%s aliases composite['%s'] or is written back"
+                       % (part, part),
+                       "self.%s is %s: structural updates folded into it "
+                       'later never reach the Composite the engine was '
+                       'built from' % (part, A.unparse(s.value)), s)
+    ck.floor('R10.9', n, 4, 'parts loaded from a composite')
+
+
+def memo_attributes(ck, ci):
+    """Memoised attributes of a class: self.A assigned under `self.A is
+    None` from a computation that reads other self attributes."""
+    out = {}
+    for m in ci.methods.values():
+        cfg = cfg_of(m.node)
+        for s in A.walk_no_nested(m.node):
+            if isinstance(s, ast.Assign) and isinstance(
+                    s.targets[0], ast.Attribute) and A.is_name(
+                    s.targets[0].value, 'self'):
+                attr = s.targets[0].attr
+                n = cfg.node(s)
+                if n is None:
+                    continue
+                # only private / cache-like attributes are memos; public
+                # state filled in when missing (Store.value from a default)
+                # is data, not a cache
+                if not (attr.startswith('_') or 'cache' in attr or
+                        attr.endswith('_view') or attr.endswith('_views')):
+                    continue
+                if ('is', 'self.' + attr, 'None') in cfg.guards(n):
+                    blk = s._parent
+                    reads = set()
+                    for x in ast.walk(blk):
+                        if isinstance(x, ast.Attribute) and A.is_name(
+                                x.value, 'self') and x.attr != attr and \
+                                isinstance(getattr(x, 'ctx', None),
+                                           ast.Load):
+                            reads.add(x.attr)
+                    out.setdefault(attr, set()).update(reads)
+    return out
+
+
+def r10_10(ck):
+    ck.rule('R10.10', 'memo invalidation: a value cached on an object '
+            '(assigned under `self.A is None`) is reset by every method of '
+            'the class that mutates an attribute the cached value was '
+            'computed from')
+    from .c19 import attr_effects
+    n = 0
+    for name in ('_StepGraph', 'Engine', 'Store'):
+        ci = ck.repo.cls(name)
+        memos = memo_attributes(ck, ci)
+        for attr, sources in sorted(memos.items()):
+            for key, m in sorted(ci.methods.items()):
+                if m.name == '__init__':
+                    continue
+                assigned, mutated = attr_effects(ck, ci, m.name, depth=0)
+                touched = (assigned | mutated) & sources
+                # removal / insertion through method calls on the source
+                for c in A.calls_in(m.node):
+                    ch = A.attr_chain(c.func) if isinstance(
+                        c.func, ast.Attribute) else None
+                    if ch and ch[0] == 'self' and len(ch) >= 3 and \
+                            ch[1] in sources and ch[-1] in (
+                                'add_node', 'add_edge', 'remove_node',
+                                'remove_edge', 'append', 'remove', 'pop',
+                                'insert', 'clear', 'update', 'extend'):
+                        touched.add(ch[1])
+                if not touched:
+                    continue
+                n += 1
+                resets = [s for s in A.walk_no_nested(m.node)
+                          if isinstance(s, ast.Assign) and A.unparse(
+                              s.targets[0]) == 'self.' + attr and
+                          isinstance(s.value, ast.Constant) and
+                          s.value.value is None]
+                ck.require(bool(resets), 'R10.10', m, m.node.name,
+                           'mutating self.%s resets the cached self.%s' % (
+                               ', self.'.join(sorted(touched)), attr),
+                           '%s.%s mutates self.%s but does not reset the '
+                           'cached self.%s: the stale value keeps being '
+                           'used (a newly added step/process is ignored)'
+                           % (name, key, ', self.'.join(sorted(touched)),
+                              attr), m.node)
+    ck.note('R10.10: %d (memo attribute, mutator) pairs on this tree' % n)
